@@ -159,7 +159,7 @@ def r6_whole_domain(ctx):
     ctx.rule('C08.R6', 'P1/P5 whole-domain checks (slots filled from the repository): find_cycles starts a DFS from every node of the dependency '
              'graph (node_indices, no filter); check_callable inspects the type of every input (the match on the input type is reached on '
              'every iteration; no skip/filter); detect_method_conflicts counts handlers for both kinds of MethodGuard (each arm of the match '
-             'inserts into the counted set).')
+             'inserts into the counted set) and examines, besides the standard methods, every method named by a guard of the path.')
     fc = ctx.need('C08.R6', 'find_cycles', ctx.fb.body('pavexc', A + 'call_graph::dependency_graph::find_cycles'))
     if fc is not None:
         defs = Defs(fc)
@@ -209,6 +209,48 @@ def r6_whole_domain(ctx):
             if ins and all(ins.values()) and len(ins) >= 2 and sb in mc.reachable(mc.succ(sb)):
                 ok = True
         ctx.ob('C08.R6', 'detect_method_conflicts|every-guard-kind-counted', ok, mc.loc(), detail)
+        # the methods that are examined: not only the constant list of standard methods, also the ones the guards themselves name
+        defs = Defs(mc)
+        NEXT = 'core::iter::traits::iterator::Iterator::next'
+        cont = [(bb, t) for bb, t in mc.calls() if (callee(t) or '').endswith('BTreeSet::contains') or (callee(t) or '').endswith('IndexSet::contains')]
+        okm, how = False, 'no `guard.contains(method)` test found'
+        for bb, t in cont:
+            pl = op_place(t['args'][1]) if len(t['args']) > 1 else None
+            if pl is None:
+                continue
+            sl, _ = backward_slice(mc, pl['l'], defs)
+            heads = [nd for c, _, nd in slice_calls(sl) if c == NEXT]
+            for nd in heads:
+                rpl = op_place(nd['args'][0])
+                rsl, rlocs = backward_slice(mc, rpl['l'], defs) if rpl else ([], set())
+                # values pushed into a collection the iterator is built from
+                for b2, t2 in mc.calls():
+                    if (callee(t2) or '').split('::')[-1] in ('push', 'extend', 'insert', 'push_back', 'extend_from_slice') and t2['args']:
+                        a0 = op_place(t2['args'][0])
+                        if a0 is None:
+                            continue
+                        _, l0 = backward_slice(mc, a0['l'], defs, through_calls=False)
+                        if (l0 | {a0['l']}) & rlocs:
+                            for a in t2['args'][1:]:
+                                pa = op_place(a)
+                                if pa is not None:
+                                    s2, _ = backward_slice(mc, pa['l'], defs)
+                                    rsl = list(rsl) + list(s2)
+                reads_guard = False
+                for _, _, n2 in rsl:
+                    places = []
+                    if 'rv' in n2:
+                        from ..flow import rv_operands
+                        ops, pls = rv_operands(n2['rv'])
+                        places = pls + [op_place(o) for o in ops if op_place(o) is not None]
+                    elif n2.get('k') == 'call':
+                        places = [op_place(o) for o in n2['args'] if op_place(o) is not None]
+                    for q in places:
+                        if any(strip_generics(e).endswith('MethodGuard') for e in q.get('e', [])) and 'd:Some' in q.get('p', []):
+                            reads_guard = True
+                okm = okm or reads_guard
+                how = 'the methods tested with contains() come from a list that %s the methods named by the guards' % ('includes' if reads_guard else 'does NOT include')
+        ctx.ob('C08.R6', 'detect_method_conflicts|custom-methods-examined', okm, mc.loc(cont[0][0]) if cont else mc.loc(), how)
 
 
 # For every roster checker: the calls whose result decides whether an item of the checked domain is skipped (a branch inside the
